@@ -415,9 +415,17 @@ func Replaying() (ReplayFile, bool) {
 // safeRun executes run(c); a panic raised inside library code (a tss-lib frame is reached before any
 // harness frame when walking down from the panic) becomes a violating outcome; a panic raised by the
 // harness itself is re-raised (infrastructure error, never a violation).
+// Raised is a violation raised from deep inside a harness helper (panic(ev.Raised{...})): safeRun turns it
+// into a violating outcome of the running case.
+type Raised struct{ Sig, Msg string }
+
 func safeRun[C any](run func(C) Outcome, c C) (out Outcome) {
 	defer func() {
 		if p := recover(); p != nil {
+			if r, ok := p.(Raised); ok {
+				out = Outcome{Label: "violation raised by a harness helper: " + r.Sig, Nontrivial: true, Err: fmt.Errorf("%s", r.Msg), Sig: r.Sig}
+				return
+			}
 			frame, lib := classifyPanic(string(debug.Stack()))
 			if !lib {
 				panic(p)
